@@ -7,6 +7,7 @@
 // Output (one stream; the check splits it):
 //   S <hist> ...statistics of the script and the twin
 //   R <hist> <run> ks=.. moveon=.. crashes=<context,...> caughtup=n ok | VIOL <key> <text>
+//   V <hist> <run> <key> <text>   a finding after which the run went on
 //   M <line>     history lines (internal/hist format) of the twin and of every crashed replay,
 //                for the extracted Ledger model (ocaml/C01 driver)
 //   X <hist> harness-error ...
@@ -201,6 +202,10 @@ func one(w *bufio.Writer, seed uint64, n int, all bool, quota int, long bool, on
 		}
 		if len(res.Crashes) == 0 {
 			st.noCrash++
+		}
+		for _, t := range res.Traces {
+			st.viol++
+			fmt.Fprintf(w, "V %d %s %s %s\n", n, id, t.Key, strings.Replace(t.What, "\n", " ", -1))
 		}
 		verdict := "ok"
 		if res.Viol != nil {
